@@ -815,6 +815,31 @@ Proof.
   - exact (tc_total BCP_fs to_chunks of_vals dec_BytecodeWithProof BytecodeWithProof_wf BytecodeWithProof_lim Hex Htot Hdyn H_dec H_inv).
 Qed.
 
+(* ================================================================== ping_ext CustomPayloadExtensionsFormatPayload *)
+Lemma dec_CustomPayload_spec data :
+  dec_CustomPayload data = if L_CustomPayload <? nlen data then Err E_BYTESLEN else Ok data.
+Proof.
+  unfold dec_CustomPayload. rewrite z_unmarshal_false. unfold rd_new.
+  pose proof (cd_bytelist L_CustomPayload data) as H. unfold cd_of in H.
+  destruct (z_de (z_bytelist L_CustomPayload) _) as [[v r']| |] eqn:E; cbn [bind] in *.
+  - destruct (L_CustomPayload <? nlen data); [discriminate|]. apply Ok_inj in H. now subst v.
+  - destruct (L_CustomPayload <? nlen data); [now apply Ok_inj in H || (injection H as ->; reflexivity)|discriminate].
+  - destruct (L_CustomPayload <? nlen data); discriminate.
+Qed.
+Definition CustomPayload_lim (v : bytes) : Prop := nlen v <= L_CustomPayload.
+Lemma CustomPayload_codec : codec_ok enc_CustomPayload dec_CustomPayload (fun _ => True) CustomPayload_lim.
+Proof.
+  unfold CustomPayload_lim. split; [|split; [|split]].
+  - intros v _ Hl. exists v. split; [reflexivity|]. rewrite dec_CustomPayload_spec. now replace (L_CustomPayload <? nlen v) with false by lia.
+  - intros v _ Hl. split; [discriminate|]. intros b Hb v' Hd. apply Ok_inj in Hb. subst b.
+    rewrite dec_CustomPayload_spec in Hd. destruct (L_CustomPayload <? nlen v) eqn:E; [discriminate|]. lia.
+  - intros b v Hd. rewrite dec_CustomPayload_spec in Hd. destruct (L_CustomPayload <? nlen b) eqn:E; [discriminate|].
+    apply Ok_inj in Hd. subst. split; [exact I|lia].
+  - intros b v Hd. rewrite dec_CustomPayload_spec in Hd. destruct (L_CustomPayload <? nlen b); [discriminate|]. apply Ok_inj in Hd. now subst.
+Qed.
+Lemma dec_CustomPayload_total b : dec_CustomPayload b <> Panic.
+Proof. rewrite dec_CustomPayload_spec. destruct (L_CustomPayload <? nlen b); discriminate. Qed.
+
 (* ================================================================== every decoder of the second table is total *)
 Lemma dec_any2_total fs t b : dec_any2 fs t b <> Panic.
 Proof.
@@ -829,6 +854,7 @@ Proof.
   - apply StorageTrieNodeWithProof_codec_total.
   - apply BytecodeWithProof_codec_total.
   - apply dec_HistSummariesKey_total.
+  - apply dec_CustomPayload_total.
 Qed.
 
 (* ================================================================== beacon Forked* wrappers *)
